@@ -40,6 +40,7 @@ typedef struct {
     uint64_t shared_reads;
     int threaded;
     vp_rng_t noise;                         /* scheduling noise must not consume the script's PRNG */
+    VssDataStringArray_t lq;                /* result object this worker re-uses for length-only queries, never reset by the worker */
 } worker_t;
 
 /* shared read-only pool */
@@ -47,6 +48,8 @@ typedef struct { const vp_format_t* f; uint8_t hdr[64]; } shared_pdu_t;
 static shared_pdu_t g_shared[NSHARED];
 static uint8_t g_shared_vss[NSHARED][64];   /* reference-encoded uint32 scalar, static id */
 static uint32_t g_shared_vss_id[NSHARED], g_shared_vss_val[NSHARED];
+/* shared read-only VSS messages carrying a packed string array (length-only queries through a re-used result object) */
+static uint8_t g_shared_sa[NSHARED][96]; static uint16_t g_shared_sa_len[NSHARED];
 /* shared read-only VSS messages carrying arrays of 64..200 bytes of multi-byte elements (a received frame decoded by several threads) */
 static uint8_t g_shared_arr[NSHARED][256]; static uint64_t g_shared_arr_el[NSHARED][32]; static uint32_t g_shared_arr_n[NSHARED]; static uint8_t g_shared_arr_code[NSHARED];
 
@@ -227,6 +230,20 @@ static void run_script(worker_t* w)
                 }
                 w->shared_reads++;
             }
+            {   /* length-only query of a string-array message of the pool through the worker's re-used result object: the
+                 * library reports the length and leaves the (absent) destination alone - a pointer it left there would make
+                 * the next query, on another shared message, write the first one */
+                VssData_t sd; sd.data_string_array = &w->lq;
+                vp_call(c);
+                Avtp_Vss_GetVssData((Avtp_Vss_t*)g_shared_sa[i], &sd);
+                c->evals++;
+                vp_tr_u64(c, w->lq.data_length);
+                if (w->lq.data_length != g_shared_sa_len[i] || w->lq.data != 0) {
+                    viol_val(w, "shared-vss-string-array-length-query", w->lq.data != 0 ? "destination-pointer-set-by-the-library" : "length", g_shared_sa_len[i], w->lq.data_length);
+                    w->lq.data = 0;
+                }
+                w->shared_reads++;
+            }
         }
     }
 }
@@ -304,6 +321,14 @@ int main(void)
             vssref_put_be(g_shared_arr[i] + 12, 4, g_shared_vss_id[i]);
             vssref_encode_value(g_shared_arr[i] + 16, adt, g_shared_arr_el[i], n, 0, 0);
         }
+        {   /* string array: 2..5 strings of 1..12 bytes, static id */
+            uint8_t* sa = g_shared_sa[i]; memset(sa, 0, 96);
+            bf_set(sa, 0, 7, 0x42); bf_set(sa, 19, 2, 1); bf_set(sa, 24, 8, 0x8B);
+            vssref_put_be(sa + 12, 4, g_shared_vss_id[i]);
+            size_t o = 18; uint32_t ns = 2 + i % 4;
+            for (uint32_t k = 0; k < ns; k++) { uint32_t l = 1 + (uint32_t)vp_rng_below(&c->rng, 12); vssref_put_be(sa + o, 2, l); vp_rng_fill(&c->rng, sa + o + 2, l); o += 2 + l; }
+            g_shared_sa_len[i] = (uint16_t)(o - 18); vssref_put_be(sa + 16, 2, g_shared_sa_len[i]);
+        }
     }
     for (uint32_t t = 0; t < MAXT; t++) {
         g_w[t].mem = vp_map(ARENA); g_w[t].shadow = vp_map(ARENA); g_ref[t].mem = vp_map(ARENA); g_ref[t].shadow = vp_map(ARENA);
@@ -314,7 +339,7 @@ int main(void)
         for (uint32_t t = 0; t < T; t++) {
             worker_t* w = &g_ref[t];
             uint8_t* m = w->mem; uint8_t* s = w->shadow;
-            vp_ctx_init(&w->c, seed, 1000 + t); w->mem = m; w->shadow = s;
+            vp_ctx_init(&w->c, seed, 1000 + t); w->mem = m; w->shadow = s; w->lq.data = 0; w->lq.data_length = 0;
             w->c.tid = (int)t; w->c.hook = hook; w->threaded = 0; w->nops = nops; w->shared_reads = 0;
             w->script_seed = seed * 1000003 + ep * 131 + t;
             run_script(w);
@@ -325,7 +350,7 @@ int main(void)
         for (uint32_t t = 0; t < T; t++) {
             worker_t* w = &g_w[t];
             uint8_t* m = w->mem; uint8_t* s = w->shadow;
-            vp_ctx_init(&w->c, seed, 1000 + t); w->mem = m; w->shadow = s;
+            vp_ctx_init(&w->c, seed, 1000 + t); w->mem = m; w->shadow = s; w->lq.data = 0; w->lq.data_length = 0;
             w->c.tid = (int)t; w->c.hook = hook; w->threaded = 1; w->nops = nops; w->shared_reads = 0;
             vp_rng_seed(&w->noise, seed + ep, 5000 + t);
             w->script_seed = seed * 1000003 + ep * 131 + t;
